@@ -15,3 +15,11 @@
 #define GSM_NBITS_NB_8PSK_TRAIN_SEQ	(GSM_NBITS_NB_GMSK_TRAIN_SEQ * 3)
 #define GSM_NBITS_NB_8PSK_BURST		(GSM_NBITS_NB_GMSK_BURST * 3)
 #define GSM_NBITS_AB_GMSK_BURST		GSM_NBITS_NB_GMSK_BURST
+
+/* TDMA frame number arithmetic (libosmocore gsm0502.h) */
+#define GSM_TDMA_SUPERFRAME	(26 * 51)
+#define GSM_TDMA_HYPERFRAME	(2048 * GSM_TDMA_SUPERFRAME)
+#define GSM_TDMA_FN_SUM(a, b)	(((a) + (b)) % GSM_TDMA_HYPERFRAME)
+#define GSM_TDMA_FN_SUB(a, b)	(((a) + GSM_TDMA_HYPERFRAME - (b)) % GSM_TDMA_HYPERFRAME)
+#define GSM_TDMA_FN_INC(fn)	((fn) = GSM_TDMA_FN_SUM((fn), 1))
+#define GSM_TDMA_FN_DEC(fn)	((fn) = GSM_TDMA_FN_SUB((fn), 1))
